@@ -9,6 +9,26 @@ Regenerates lean/FairModel/Generated/AdvTrainStepSrc.lean:
                 LP = predictor_loss(predictor_model(X), Y)                       -> predictor
                 LA = adversary_loss(adversary_model(Y_hat [cat Y]), A)           -> predictor (through Y_hat) and adversary
               (a `.detach()` on the way cuts the dependency)
+  retainsGraph  which `backward` calls keep the autograd graph (`retain_graph=True`); `TrainStepL.graphOk` checks that no
+              backward pass walks a sub-graph an earlier one has freed
+
+ARGUMENTS of the bookkeeping calls are PINNED (`_call_args`): exactly the empty argument list plus
+  zero_grad(set_to_none=<bool literal>) / zero_grad(<bool literal>)
+        harmless: afterwards every buffer is `None` or a zero tensor; the next write is a `backward`, which stores the
+        gradient into a `None` buffer and ADDS it to a zero one (0 + x == x exactly in floating point), so the copies and
+        what the optimisers read have the same values.  (A parameter no later backward reaches has `.grad is None` under
+        the torch >= 2.0 default `set_to_none=True`: the copy `p.grad.detach()` then raises -- a crash, never a wrong value.)
+        Normalised away: the generated file is byte-identical.
+  <model>.train() / .train(<bool literal>) / .train(mode=<bool literal>) / .eval()
+        harmless for the bookkeeping: the mode changes what the forward pass computes (dropout, batch-norm), never which
+        `.grad` buffer is written; the gradients of the forward pass AS RUN are the inputs of the model.
+  <loss>.backward(retain_graph=<bool literal>)
+        LIFTED into `retainsGraph` (the flag of a backward pass after which no other backward pass follows is immaterial --
+        nothing walks the graph again -- and is emitted as `false`, so `LA.backward(retain_graph=True)` is byte-identical).
+  <optimizer>.step()     no argument at all (`step(closure)` re-evaluates the model: refused).
+Refused, each NAMED in the message: `backward(inputs=[..])` (restricts which `.grad` buffers are written),
+`backward(gradient=..)` / a positional argument (rescales every gradient), `backward(create_graph=..)`, non-literal flags,
+`**kwargs`, and any keyword not listed above.
 `Model/TrainStepLifted.lean` interprets the list on symbolic `.grad` buffers; `C16.lifted_train_step_gradients` proves
 that, whatever the buffers held before the step, the predictor's optimiser applies combine(dLP/dW, dLA/dW) and the
 adversary's optimiser applies exactly dLA/dU.  (The three-line body of the loop itself is lifted by adv_projection.py.)
@@ -73,6 +93,54 @@ def _bad(msg):
     raise _U("C16 train_step lifter: " + msg)
 
 
+def _bool_lit(n):
+    return isinstance(n, ast.Constant) and isinstance(n.value, bool)
+
+
+BACKWARD_REFUSALS = {
+    "inputs": "`inputs=` restricts the parameters whose `.grad` is written: the other buffers keep what they held",
+    "gradient": "`gradient=` multiplies every gradient of this pass by the given tensor (vector-Jacobian product)",
+    "grad_tensors": "`grad_tensors=` multiplies every gradient of this pass by the given tensor",
+    "create_graph": "`create_graph=` makes the `.grad` buffers part of a differentiable graph (and implies retain_graph)",
+}
+
+
+def _call_args(call, meth, s):
+    """the argument list of one bookkeeping call -> dict of LIFTED flags; everything not whitelisted is refused (see the
+    module doc comment for why each accepted spelling is harmless)"""
+    kws = {k.arg: k.value for k in call.keywords}
+    if None in kws or any(isinstance(a, ast.Starred) for a in call.args):
+        _bad(f"`*args` / `**kwargs` in a bookkeeping call: {s[:80]}")
+    if meth == "zero_grad":
+        flags = list(call.args) + [v for k, v in kws.items() if k == "set_to_none"]
+        if len(call.args) > 1 or set(kws) - {"set_to_none"} or len(flags) > 1 or not all(_bool_lit(f) for f in flags):
+            _bad(f"zero_grad() takes at most `set_to_none=<bool literal>` here: {s[:80]}")
+        return {}
+    if meth in ("train", "eval"):
+        flags = list(call.args) + [v for k, v in kws.items() if k == "mode"]
+        if meth == "eval" and (call.args or kws):
+            _bad(f"eval() takes no argument: {s[:80]}")
+        if len(call.args) > 1 or set(kws) - {"mode"} or len(flags) > 1 or not all(_bool_lit(f) for f in flags):
+            _bad(f"train() takes at most `mode=<bool literal>` here: {s[:80]}")
+        return {}
+    if meth == "step":
+        if call.args or kws:
+            _bad(f"optimiser step with arguments (a closure re-evaluates the model): {s[:80]}")
+        return {}
+    if meth == "backward":
+        if call.args:
+            _bad(f"backward() with a positional argument: {BACKWARD_REFUSALS['gradient']}: {s[:80]}")
+        for k in kws:
+            if k in BACKWARD_REFUSALS:
+                _bad(f"backward({k}=..): {BACKWARD_REFUSALS[k]}: {s[:80]}")
+            if k != "retain_graph":
+                _bad(f"backward() with unknown keyword `{k}`: {s[:80]}")
+        if "retain_graph" in kws and not _bool_lit(kws["retain_graph"]):
+            _bad(f"backward(retain_graph=<not a bool literal>): {s[:80]}")
+        return {"retain": bool(kws["retain_graph"].value) if "retain_graph" in kws else False}
+    _bad(f"call statement of unknown shape: {s[:80]}")
+
+
 def _deps_of(node, deps):
     """players whose parameters an expression depends on through autograd"""
     if isinstance(node, ast.Call) and isinstance(node.func, ast.Attribute) and node.func.attr in ("detach", "item", "numpy") \
@@ -109,6 +177,7 @@ def lift(repo):
     events = []
     srcs = []
     extra = {}
+    retain = {}          # loss -> `retain_graph` flag of its backward call
     returned = False
     for st in body:
         if returned:
@@ -119,17 +188,23 @@ def lift(repo):
             continue
         if isinstance(st, ast.Expr) and isinstance(st.value, ast.Call) and isinstance(st.value.func, ast.Attribute):
             call, base, meth = st.value, _src(st.value.func.value), st.value.func.attr
-            if base in PLAYERS and meth in ("train", "eval") and not call.args:
+            if base in PLAYERS and meth in ("train", "eval"):
+                _call_args(call, meth, s)
                 continue
-            if base in OPTS and meth == "zero_grad" and not call.args:
+            if base in OPTS and meth == "zero_grad":
+                _call_args(call, meth, s)
                 events.append(f".zeroGrad .{OPTS[base]}")
                 srcs.append(s)
                 continue
-            if base in OPTS and meth == "step" and not call.args and not call.keywords:
+            if base in OPTS and meth == "step":
+                _call_args(call, meth, s)
                 events.append(f".step .{OPTS[base]}")
                 srcs.append(s)
                 continue
-            if base in loss and meth == "backward" and not call.args:
+            if base in loss and meth == "backward":
+                if loss[base] in retain:
+                    _bad(f"{loss[base]} is back-propagated twice")
+                retain[loss[base]] = _call_args(call, meth, s)["retain"]
                 events.append(f".backward .{loss[base]}")
                 srcs.append(s)
                 continue
@@ -221,6 +296,11 @@ def lift(repo):
         _bad(f"losses found: {sorted(loss.values())}")
     if "cat" not in extra or extra.get("adv_arg") != extra["cat"][1]:
         _bad("the adversary is not fed the (optionally concatenated) predictor output")
+    if set(retain) != {"LP", "LA"}:
+        _bad(f"backward passes found: {sorted(retain)}")
+    # the flag of the LAST backward pass is immaterial (no later pass walks the graph): emitted as false
+    last = [e for e in events if e.startswith(".backward")][-1].split(".")[-1]
+    retain[last] = False
     events, srcs = _canonical_runs(events, srcs)
     if events == PINNED_EVENTS:
         srcs = PINNED_SRCS
@@ -254,6 +334,11 @@ def lift(repo):
           "def dependsOn : Loss → List Player",
           "  | .LP => [" + ", ".join("." + p for p in sorted(dep["LP"], key=order.get)) + "]",
           "  | .LA => [" + ", ".join("." + p for p in sorted(dep["LA"], key=order.get)) + "]", "",
+          "/-- `<loss>.backward(retain_graph=True)`: does this backward pass keep the autograd graph it walked?  (The flag of the",
+          "    last backward pass of the step is immaterial and always emitted as `false`.) -/",
+          "def retainsGraph : Loss → Bool",
+          "  | .LP => " + ("true" if retain["LP"] else "false"),
+          "  | .LA => " + ("true" if retain["LA"] else "false"), "",
           "/-- what the adversary's forward pass is fed, column blocks in order -/",
           "inductive AdvIn where", "  /-- the predictor's output `Y_hat` (NOT detached: LA reaches the predictor through it) -/", "  | yhat",
           "  /-- the encoded target `Y` -/", "  | y", "deriving DecidableEq, Repr", "",
@@ -265,7 +350,7 @@ def lift(repo):
           "def adversaryInputWidth (n_Y_features : Nat) (pass_y : Bool) : Nat := " + width[0], "",
           "end AdvTrainStepSrc", ""]
     return "AdvTrainStepSrc.lean", "\n".join(o), dict(events=[e.strip(".") for e in events], dependsOn=dep,
-                                                       adversary_input=extra["cat"][0])
+                                                       adversary_input=extra["cat"][0], retainsGraph=retain)
 
 
 def lift_pass_y(repo):
